@@ -158,6 +158,9 @@ def render_ojn(ab, meta=None):
 
     meta = meta or {}
     pk = []
+    if ab.get("ojn_event_at_zero"):
+        # a tempo event on measure 0, position 0: it replaces the header tempo from 0 ms on (two tempo points at one time)
+        pk.append((0, 1, [float(ab["tempo"][0][1])]))
     for m, v in ab["tempo"][1:]:
         pk.append((m, 1, [float(v)]))
     per = {}
@@ -170,7 +173,7 @@ def render_ojn(ab, meta=None):
     for (m, c), slots in per.items():
         pk.append((m, c + 2, [slots.get(i) for i in range(16)]))
     pk.sort(key=lambda x: (x[0], x[1]))
-    hdr = dict(song_id=1, signature="ojn", encode_version=2.9, genre=0, bpm=float(ab["tempo"][0][1]), level=[5, 10, 15, 0], event_count=[0, 0, 0],
+    hdr = dict(song_id=1, signature="ojn", encode_version=2.9, genre=0, bpm=float(ab.get("ojn_event_at_zero") or ab["tempo"][0][1]), level=[5, 10, 15, 0], event_count=[0, 0, 0],
                note_count=[0, 0, 0], measure_count=[ab["n_meas"]] * 3, package_count=[len(pk), 0, 0], old_encode_version=29, old_song_id=1, old_genre="",
                bmp_size=0, old_file_version=0, title=meta.get("title", "Title"), artist=meta.get("artist", "Artist"), creator=meta.get("creator", "me"),
                ojm_file="x.ojm", cover_size=0, duration=[60, 0, 0], note_offset=[300, 0, 0], cover_offset=0)
